@@ -926,6 +926,10 @@ def sim_trace(c, r):
         if c.get("outer"):
             import kappadata.transforms as kdt
             base = kdt.KDComposeTransform([base])
+        # uses before the schedule is installed (a look at a sample in the main process, before the workers fork):
+        # not part of the scheduled run, so not recorded - but they must not shift the run that follows
+        for q in range(c.get("pre", 0)):
+            base(probe_tensor(q), {} if q % 2 == 0 else None)
         workers = [copy.deepcopy(base) for _ in range(W)]
         kw = c["kw"]
         for rk, t in enumerate(workers):
@@ -999,6 +1003,8 @@ def _loader_child(c, conn):
                                 ilv=torch.tensor(leaves_at(tr, ipaths), dtype=torch.int64))
 
             ds = DS()
+            for q in range(c.get("pre", 0)):
+                ds[q % n]  # the main process looks at samples before the loader (and its schedule) exists
             init = partial(tr.worker_init_fn, batch_size=BS, **c["kw"])
             loader = DataLoader(ds, batch_sampler=batches, num_workers=W, worker_init_fn=init, timeout=60)
             out = []
@@ -1091,7 +1097,8 @@ def sched_cfg(r, W, BS, NB, inner=None, sched=None, how=None, **extra):
 
 def sched_key(c):
     return (f"W={c['W']}:BS={c['BS']}:NB={c['NB']}:sched={c['sched'][0]}:how={c['how']}:inner={INNERS[c['inner']][0]}"
-            f":mode={c.get('route', 'sim')}" + (":outer" if c.get("outer") else "") + (":manual" if c.get("manual") else ""))
+            f":mode={c.get('route', 'sim')}" + (":outer" if c.get("outer") else "") + (":manual" if c.get("manual") else "")
+            + (f":pre={c['pre']}" if c.get("pre") else ""))
 
 
 def sched_trace_cfg(c):
@@ -1237,18 +1244,19 @@ def run(prop, tier, seed):
         for BS in (1, 2, 3):
             for NB in range(1, 8):
                 for rep in range(2 if quick else 6):
-                    c = sched_cfg(r, W, BS, NB, outer=r.random() < 0.25, manual=(W == 1 and r.random() < 0.5))
+                    c = sched_cfg(r, W, BS, NB, outer=r.random() < 0.25, manual=(W == 1 and r.random() < 0.5),
+                                  pre=r.choice((0, 0, 1, 2, 5)))
                     add_s(c, sim_trace(c, r))
     for _ in range(80 if quick else 800):
         c = sched_cfg(r, r.randint(1, 8), r.randint(1, 16), r.randint(1, 40), outer=r.random() < 0.25,
-                      manual=r.random() < 0.3)
+                      manual=r.random() < 0.3, pre=r.choice((0, 0, 1, 3, 17)))
         add_s(c, sim_trace(c, r))
     loader_plan = [(1, "direct"), (2, "direct"), (3, "direct"), (2, "wrapper"), (3, "wrapper"), (1, "wrapper")]
     if not quick:
         loader_plan = loader_plan * 4 + [(4, "direct"), (5, "wrapper"), (6, "direct")]
     for i, (W, route) in enumerate(loader_plan):
         c = sched_cfg(r, W, r.randint(1, 4), r.randint(max(1, W - 1), 9), inner=i % len(INNERS), route=route,
-                      seed=seed * 100 + i)
+                      seed=seed * 100 + i, pre=(0, 2, 1)[i % 3] if route == "direct" else 0)
         add_s(c, loader_trace(c))
 
     v.coverage["wall_record_total_s"] = round(time.time() - t_rec, 1)
